@@ -12,12 +12,15 @@ import (
 )
 
 func (u *UseCase) DeleteOld(ctx context.Context) error {
+	sequence.LockHorizon()
 	tx, err := u.txRepo.Oldest(ctx)
 	if errors.Is(err, fs_db.ErrTxNotFound) {
 		tx = model.Transaction{
 			Seq: sequence.Next(),
 		}
-	} else if err != nil {
+	}
+	sequence.UnlockHorizon()
+	if err != nil && !errors.Is(err, fs_db.ErrTxNotFound) {
 		return fmt.Errorf("tx repo oldest: %w", err)
 	}
 
